@@ -102,6 +102,12 @@ def library():
                                                       [("c", [T(k)]), ("c", [T(k)])]], False, None))
     add("table-mixed-longlist-empty", lambda k: ("table", [[("cb", [("p", [("b", [T(k)]), T(k)]), longlist(k, 7)]), ("c", [])],
                                                             [("c", [T(k)]), ("c", [T(k)])]], False, None))
+    # a cell that is taller than a page, with one child that is page-high by itself behind a short lead-in (last column, so that a
+    # legitimate split of the row keeps the linear order)
+    add("table-tall-cell-list", lambda k: ("table", [[("c", [T(k)]), ("cb", [("p", [T(k), T(k)]), longlist(k, 16), ("p", [T(k)])])],
+                                                      [("c", [T(k)]), ("c", [T(k)])]], False, None))
+    add("table-tall-cell-paras", lambda k: ("table", [[("c", [T(k)]), ("cb", [("p", [T(k)]), longlist(k, 20), longlist(k, 3), ("p", [T(k), T(k)])])],
+                                                       [("c", [T(k)]), ("c", [T(k)])]], False, None))
     add("table-longlists", lambda k: ("table", [[("cb", [longlist(k, 6)]), ("cb", [longlist(k, 3)])], [("c", [T(k)]), ("c", [T(k)])]], False, None))
     add("table-sparse-last", lambda k: ("table", [[("c", [T(k)]), ("c", [T(k)])], [("c", [T(k)]), ("c", [])]], False, None))
     add("table-sparse-all", lambda k: ("table", [[("c", [T(k)]), ("c", [])], [("c", []), ("c", [T(k)])]], False, None))
